@@ -6,12 +6,13 @@
            called in registration order) and the listener programs.
    Part 3: plain classes (an eager one and a lazyUpdate one): `step`, written
            after main.py __init__/_create/_SO_finishCreate/_SO_setValue/set/
-           syncUpdate/destroySelf/get, statement for statement, bugs included
-           (the delegation of _SO_setValue to set() when a listener changed the
-           key set of the one-entry dict, the row_update_sig_suppress flag that
-           is not reset when that set() raises, the KeyError on d[name]).
+           syncUpdate/destroySelf/get, statement for statement (including the
+           delegation of _SO_setValue to set() under row_update_sig_suppress
+           when a listener changed the key set of the one-entry dict; since
+           480ba65 _SO_setValue returns after that set() and the flag is
+           cleared in a finally, so it never outlives the call).
    Part 4: the specification `spec_events` of a successful operation, written
-           from the documentation of the signals, and the guards.
+           from the documentation of the signals.
    Part 5: the three-level InheritableSQLObject chain: listener propagation
            to subclasses (events.listen / _makeSubclassConnectionsPost) and
            `chain_create` after inheritance/__init__.py _create with the
@@ -168,8 +169,9 @@ Definition tab (g : cfg) (k : cls) : list (Z * listener) :=
   number 0 (match k with KEager => lis_e g | KLazy => lis_l g end).
 
 (* what the application's reference to an instance carries besides the row:
-   _SO_createValues of a lazy instance, sqlmeta.row_update_sig_suppress *)
-Record hstate := { h_pend : kwargs; h_sup : bool }.
+   _SO_createValues of a lazy instance (sqlmeta.row_update_sig_suppress exists
+   only while _SO_setValue runs its delegated set()) *)
+Record hstate := { h_pend : kwargs }.
 
 Record kstate := {
   k_tbl : list (Z * kwargs);     (* rows in rowid order; a row lists all columns in creationOrder *)
@@ -210,7 +212,7 @@ Definition tbl_delete (id : Z) (t : list (Z * kwargs)) : list (Z * kwargs) :=
 Definition tbl_has (id : Z) (t : list (Z * kwargs)) : bool :=
   existsb (fun r => Z.eqb (fst r) id) t.
 
-Inductive exn := XInvalid | XTypeError | XKeyError | XNotFound.
+Inductive exn := XInvalid | XTypeError | XKeyError | XNotFound | XDuplicate.
 Inductive outcome :=
 | Done
 | Ids (l : list Z)          (* rows handed out by a fetch *)
@@ -227,12 +229,11 @@ Inductive op :=
 | OSelect (k : cls).                                  (* list(cls.select(orderBy='id')) *)
 
 (* the result of the update paths: outcome, trace, the instance's pending
-   values and flag afterwards, the UPDATE statements that reached the table *)
+   values afterwards, the UPDATE statements that reached the table *)
 Record ures := {
   u_out : outcome;
   u_tr : list (ev cls);
   u_pend : kwargs;
-  u_sup : bool;
   u_upds : list kwargs
 }.
 
@@ -249,71 +250,68 @@ Fixpoint fill_defaults (cs : list col) (kw : kwargs) : option kwargs :=
            end
   end.
 
-(* SQLObject.set on a created instance.  sup = the instance's
-   row_update_sig_suppress flag (the RowUpdateSignal is skipped when set). *)
+(* SQLObject.set on a created instance.  sup = row_update_sig_suppress is set
+   (the call comes from _SO_setValue, which has sent the RowUpdateSignal). *)
 Definition set_core (g : cfg) (k : cls) (id : Z) (pend : kwargs) (sup : bool) (kw : kwargs) : ures :=
   let L := sel SUpdate (tab g k) in
   let tr1 := if sup then [] else sig_events SUpdate k (Some id) L kw in
   let kw1 := if sup then kw else final_kw SUpdate L kw in
   if negb (validate kw1) then
-    {| u_out := Exn XInvalid; u_tr := tr1; u_pend := pend; u_sup := sup; u_upds := [] |}
+    {| u_out := Exn XInvalid; u_tr := tr1; u_pend := pend; u_upds := [] |}
   else if is_lazy k then
-    {| u_out := Done; u_tr := tr1; u_pend := kw_update pend kw1; u_sup := sup; u_upds := [] |}
+    {| u_out := Done; u_tr := tr1; u_pend := kw_update pend kw1; u_upds := [] |}
   else
     let w := sort_cols kw1 in
     {| u_out := Done;
        u_tr := tr1 ++ (if is_nil w then [] else [EWrite (WUpdate k id w)])
                    ++ after_part (tab g k) SUpdated k id;
-       u_pend := pend; u_sup := sup;
+       u_pend := pend;
        u_upds := if is_nil w then [] else [w] |}.
 
 (* _SO_setValue on a created instance *)
-Definition assign_core (g : cfg) (k : cls) (id : Z) (pend : kwargs) (sup : bool) (c : col) (v : val) : ures :=
+Definition assign_core (g : cfg) (k : cls) (id : Z) (pend : kwargs) (c : col) (v : val) : ures :=
   let L := sel SUpdate (tab g k) in
   let d0 := [(c, v)] in
-  let tr1 := if sup then [] else sig_events SUpdate k (Some id) L d0 in
-  let d := if sup then d0 else final_kw SUpdate L d0 in
-  let delegate := negb (Nat.eqb (length d) 1) || negb (kw_has c d) in
-  (* if len(d) != 1 or name not in d: flag := True; self.set( **d); del flag *)
-  let r := if delegate then set_core g k id pend true d
-           else {| u_out := Done; u_tr := []; u_pend := pend; u_sup := sup; u_upds := [] |} in
-  match u_out r with
-  | Done =>
-      let sup' := if delegate then false else sup in
-      let pend' := u_pend r in
-      let tr2 := tr1 ++ u_tr r in
-      match kw_get c d with
-      | None => {| u_out := Exn XKeyError; u_tr := tr2; u_pend := pend'; u_sup := sup'; u_upds := u_upds r |}
-      | Some v' =>
-          if negb (val_ok (col_ty c) v') then
-            {| u_out := Exn XInvalid; u_tr := tr2; u_pend := pend'; u_sup := sup'; u_upds := u_upds r |}
-          else if is_lazy k then
-            {| u_out := Done; u_tr := tr2; u_pend := kw_set c v' pend'; u_sup := sup'; u_upds := u_upds r |}
-          else
-            {| u_out := Done;
-               u_tr := tr2 ++ [EWrite (WUpdate k id [(c, v')])] ++ after_part (tab g k) SUpdated k id;
-               u_pend := pend'; u_sup := sup';
-               u_upds := u_upds r ++ [[(c, v')]] |}
-      end
-  | o =>
-      (* set() raised: the flag stays set on the instance *)
-      {| u_out := o; u_tr := tr1 ++ u_tr r; u_pend := u_pend r; u_sup := true; u_upds := u_upds r |}
-  end.
+  let tr1 := sig_events SUpdate k (Some id) L d0 in
+  let d := final_kw SUpdate L d0 in
+  if negb (Nat.eqb (length d) 1) || negb (kw_has c d) then
+    (* a receiver added a key or removed `name`:
+       flag := True; try: self.set( **d) finally: del flag; return
+       -- the assignment IS set( **d): whatever is left of the dict is
+       validated and stored with one UPDATE (none if it is empty), then
+       RowUpdatedSignal and its callbacks; lazy: the dict goes to the pending
+       values *)
+    let r := set_core g k id pend true d in
+    {| u_out := u_out r; u_tr := tr1 ++ u_tr r; u_pend := u_pend r; u_upds := u_upds r |}
+  else
+    match kw_get c d with
+    | None => (* not reachable: c is a key of d here *)
+        {| u_out := Exn XKeyError; u_tr := tr1; u_pend := pend; u_upds := [] |}
+    | Some v' =>
+        if negb (val_ok (col_ty c) v') then
+          {| u_out := Exn XInvalid; u_tr := tr1; u_pend := pend; u_upds := [] |}
+        else if is_lazy k then
+          {| u_out := Done; u_tr := tr1; u_pend := kw_set c v' pend; u_upds := [] |}
+        else
+          {| u_out := Done;
+             u_tr := tr1 ++ [EWrite (WUpdate k id [(c, v')])] ++ after_part (tab g k) SUpdated k id;
+             u_pend := pend; u_upds := [[(c, v')]] |}
+    end.
 
 (* syncUpdate *)
-Definition sync_core (g : cfg) (k : cls) (id : Z) (pend : kwargs) (sup : bool) : ures :=
-  if is_nil pend then {| u_out := Done; u_tr := []; u_pend := pend; u_sup := sup; u_upds := [] |}
+Definition sync_core (g : cfg) (k : cls) (id : Z) (pend : kwargs) : ures :=
+  if is_nil pend then {| u_out := Done; u_tr := []; u_pend := pend; u_upds := [] |}
   else
     let w := sort_cols pend in
     {| u_out := Done;
        u_tr := [EWrite (WUpdate k id w)] ++ after_part (tab g k) SUpdated k id;
-       u_pend := []; u_sup := sup; u_upds := [w] |}.
+       u_pend := []; u_upds := [w] |}.
 
 Definition commit_ures (st : state) (k : cls) (id : Z) (r : ures) : state * outcome * list (ev cls) :=
   let s := ks st k in
   (set_ks st k {| k_tbl := fold_left (fun t u => tbl_update id u t) (u_upds r) (k_tbl s);
                   k_next := k_next s;
-                  k_hs := h_put id {| h_pend := u_pend r; h_sup := u_sup r |} (k_hs s) |},
+                  k_hs := h_put id {| h_pend := u_pend r |} (k_hs s) |},
    u_out r, u_tr r).
 
 Definition with_handle (st : state) (k : cls) (id : Z)
@@ -339,18 +337,18 @@ Definition step (g : cfg) (st : state) (o : op) : state * outcome * list (ev cls
             let row := sort_cols kw2 in
             (set_ks st k {| k_tbl := k_tbl s ++ [(id, row)];
                             k_next := id + 1;
-                            k_hs := h_put id {| h_pend := []; h_sup := false |} (k_hs s) |},
+                            k_hs := h_put id {| h_pend := [] |} (k_hs s) |},
              Done,
              tr1 ++ [EWrite (WInsert k id row)]
                  ++ run_posts SCreate k id (posts SCreate L)
                  ++ after_part (tab g k) SCreated k id)
       end
   | OAssign k id c v =>
-      with_handle st k id (fun h => commit_ures st k id (assign_core g k id (h_pend h) (h_sup h) c v))
+      with_handle st k id (fun h => commit_ures st k id (assign_core g k id (h_pend h) c v))
   | OSet k id kw0 =>
-      with_handle st k id (fun h => commit_ures st k id (set_core g k id (h_pend h) (h_sup h) (mk_kw kw0)))
+      with_handle st k id (fun h => commit_ures st k id (set_core g k id (h_pend h) false (mk_kw kw0)))
   | OSync k id =>
-      with_handle st k id (fun h => commit_ures st k id (sync_core g k id (h_pend h) (h_sup h)))
+      with_handle st k id (fun h => commit_ures st k id (sync_core g k id (h_pend h)))
   | ODestroy k id =>
       with_handle st k id (fun h =>
         let s := ks st k in
@@ -379,7 +377,7 @@ Fixpoint run (g : cfg) (st : state) (ops : list op) : list srec :=
   end.
 
 (* ------------------------------------------------------------------ *)
-(* Part 4: specification and guards                                     *)
+(* Part 4: specification                                                *)
 
 Definition succeeded (o : outcome) : bool :=
   match o with Done | Ids _ => true | _ => false end.
@@ -410,10 +408,13 @@ Definition spec_events (g : cfg) (st : state) (o : op) : list (ev cls) :=
         ++ run_posts SCreate k id (posts SCreate L)
         ++ after_part (tab g k) SCreated k id
   | OAssign k id c v =>
+      (* obj.c = v is obj.set(c=v): also when the receivers add columns to the
+         dict or take c out of it (then nothing is written if it is empty) *)
       let L := sel SUpdate (tab g k) in
+      let w := sort_cols (final_kw SUpdate L [(c, v)]) in
       sig_events SUpdate k (Some id) L [(c, v)]
         ++ (if is_lazy k then []
-            else [EWrite (WUpdate k id (sort_cols (final_kw SUpdate L [(c, v)])))]
+            else (if is_nil w then [] else [EWrite (WUpdate k id w)])
                    ++ after_part (tab g k) SUpdated k id)
   | OSet k id kw0 =>
       let L := sel SUpdate (tab g k) in
@@ -468,16 +469,6 @@ Definition op_target (o : op) : option (cls * Z) :=
   | OAssign k id _ _ | OSet k id _ | OSync k id => Some (k, id)
   | _ => None
   end.
-
-(* the trigger class of the known defect: an attribute assignment whose
-   RowUpdateSignal receivers change the KEY SET of the one-entry dict (add
-   another column, or remove the assigned one).  Changing the value is fine. *)
-Definition assign_keeps_key (g : cfg) (k : cls) (c : col) (v : val) : bool :=
-  let d := final_kw SUpdate (sel SUpdate (tab g k)) [(c, v)] in
-  Nat.eqb (length d) 1 && kw_has c d.
-Definition op_guard (g : cfg) (o : op) : bool :=
-  match o with OAssign k _ c v => assign_keeps_key g k c v | _ => true end.
-Definition guard (g : cfg) (ops : list op) : bool := forallb (op_guard g) ops.
 
 Definition is_fetch (o : op) : bool :=
   match o with OGet _ _ _ | OSelect _ => true | _ => false end.
